@@ -9,6 +9,7 @@ CONSTANTS
   MaxBurst = 1
   BurstReps = 10
   Opts = {}
+  Anns = {}
   Depth = 12
 INVARIANT Inv
 VIEW view
